@@ -2994,13 +2994,51 @@ def replace_dilated_convolution(op, arch, nng=None):
     if pre_op.type != Op.SpaceToBatchND:
         return post_op
 
+    # The three operations are a dilated convolution only if the rearranged tensors have no other reader, the
+    # convolution is a plain VALID one, both rearrangements use the same block and the paddings / crops are those of
+    # a SAME or of a VALID convolution of the original feature map
+    if len(pre_op.outputs[0].consumer_list) != 1 or len(op.outputs[0].consumer_list) != 1:
+        return post_op
+    if nng is not None and any(
+        tens in sg.output_tensors for sg in nng.subgraphs for tens in (pre_op.outputs[0], op.outputs[0])
+    ):
+        return post_op
+    if op.attrs.get("padding") != Padding.VALID or op.get_kernel_stride() != (1, 1) or op.get_kernel_dilation() != (1, 1):
+        return post_op
     pre_block = pre_op.inputs[1].values
-    post_block = pre_op.inputs[1].values
-    assert (pre_block == post_block).all
-    assert len(np.array(pre_block).shape) == 1
-    assert np.array(pre_block).shape[0] == 2
+    post_block = post_op.inputs[1].values
+    paddings = pre_op.inputs[2].values
+    crops = post_op.inputs[2].values
+    if pre_block is None or post_block is None or paddings is None or crops is None:
+        return post_op
+    pre_block = np.array(pre_block).flatten().tolist()
+    if len(pre_block) != 2 or pre_block != np.array(post_block).flatten().tolist():
+        return post_op
+    paddings = np.array(paddings).reshape(-1).tolist()
+    crops = np.array(crops).reshape(-1).tolist()
+    ifm_shape = pre_op.inputs[0].shape
+    ofm_shape = post_op.outputs[0].shape
+    if len(paddings) != 4 or len(crops) != 4 or len(ifm_shape) != 4 or len(ofm_shape) != 4:
+        return post_op
+    kernel_hw = op.weights.shape[0:2]
+    padding = None
+    for axis in range(2):
+        span = (kernel_hw[axis] - 1) * pre_block[axis]
+        lead = paddings[2 * axis] - crops[2 * axis]
+        same = ofm_shape[1 + axis] == ifm_shape[1 + axis] and lead == span // 2
+        valid = ofm_shape[1 + axis] == ifm_shape[1 + axis] - span and lead == 0
+        if not (same or valid):
+            return post_op
+        if span == 0:
+            continue
+        axis_padding = Padding.SAME if same else Padding.VALID
+        if padding is not None and padding != axis_padding:
+            return post_op
+        padding = axis_padding
+    if padding is None:
+        padding = Padding.VALID
 
-    op.attrs.update({'padding': Padding.SAME, "dilation": (1, pre_block[0], pre_block[1], 1)})
+    op.attrs.update({"padding": padding, "dilation": (1, pre_block[0], pre_block[1], 1)})
     op.set_output_tensor(post_op.outputs[0])
     ppre_op = pre_op.inputs[0].ops[0]
     op.set_input_tensor(ppre_op.outputs[0], 0)
